@@ -167,6 +167,17 @@ func (t *Torrent) run(ctx context.Context) {
 	defer func() {
 		close(t.Done)
 		t.Pieces.Del()
+		// peers that were queued but never started
+		for {
+			select {
+			case e := <-t.Event:
+				if e, ok := e.(peer.TorAddPeer); ok {
+					e.Peer.Close()
+				}
+			default:
+				return
+			}
+		}
 	}()
 
 	t.rand = rand.New(rand.NewPCG(rand.Uint64(), rand.Uint64()))
@@ -1493,7 +1504,14 @@ func (t *Torrent) NewPeer(proxy string, conn net.Conn, addr netip.AddrPort, inco
 
 	select {
 	case t.Event <- peer.TorAddPeer{p, init}:
-		return nil
+		select {
+		case <-t.Done:
+			// nobody might ever handle the event
+			conn.Close()
+			return ErrTorrentDead
+		default:
+			return nil
+		}
 	case <-t.Done:
 		conn.Close()
 		return ErrTorrentDead
